@@ -1,17 +1,17 @@
 """Per-property claims (source of MANIFEST.json; tools/gen_manifest.py renders it)."""
 HOOK_COMMITS = []
 ENGINES = [
-    {"name": "lean-model", "path": "lean/", "serves_properties": ["C01", "C02", "C03", "C04", "C05", "C06", "C07", "C09", "C13", "C11", "C12", "C16", "C17", "C20"],
+    {"name": "lean-model", "path": "lean/", "serves_properties": ["C01", "C02", "C03", "C04", "C05", "C06", "C07", "C09", "C13", "C18", "C11", "C12", "C16", "C17", "C20"],
      "kind_free_text": "Lean 4 library Dbus (Spec, Model, Proofs, Props) + compiled line-protocol driver dbus-model"},
-    {"name": "tabulator", "path": "gen/", "serves_properties": ["C01", "C02", "C03", "C04", "C05", "C06", "C07", "C09", "C13", "C11", "C12", "C16", "C17", "C20"],
+    {"name": "tabulator", "path": "gen/", "serves_properties": ["C01", "C02", "C03", "C04", "C05", "C06", "C07", "C09", "C13", "C18", "C11", "C12", "C16", "C17", "C20"],
      "kind_free_text": "C translation units that #include repo sources and print finite tables; rendered to lean/Dbus/Generated"},
-    {"name": "h-lib", "path": "harness/lib/", "serves_properties": ["C01", "C02", "C03", "C04", "C05", "C06", "C07", "C09", "C13", "C11", "C12", "C16", "C17", "C20"],
+    {"name": "h-lib", "path": "harness/lib/", "serves_properties": ["C01", "C02", "C03", "C04", "C05", "C06", "C07", "C09", "C13", "C18", "C11", "C12", "C16", "C17", "C20"],
      "kind_free_text": "in-process C harnesses linked against the ASan/UBSan build of the working tree"},
 ]
 PENDING = "not implemented yet in this round (planned, see DESIGN.md §4/§7); no check is claimed"
 NOT_APPLICABLE = {p: PENDING for p in
                   ["C08", "C10", "C14", "C15",
-                   "C18", "C19"]}
+                   "C19"]}
 BUS_TIE = ("The bus model (lean/Dbus/Model/Bus: dispatch, driver methods, registry, match delivery, policy gate, pending replies, "
            "disconnect cleanup; method table regenerated from bus/driver.c) is tied to the real dbus-daemon (ASan/UBSan build of the working "
            "tree) by generated histories over raw sockets: after every operation every connection's received messages and every "
@@ -67,6 +67,22 @@ CHECKS = {
                 "three uids, plus a destination-rule profile with queued owners); F17 (policy optimizer dropping rules) was found by this "
                 "check and repaired in /repo.",
         "note": "The harness appends four mandatory allow rules it needs for its own barriers (Peer/NameHasOwner/Hello calls to the bus, receiving from the bus); at_console contexts and SELinux/AppArmor mediation are not exercised. config-parser attribute handling is modelled (ruleOfAttrs) and compared, not proved against the DTD.",
+    },
+    "C18": {
+        "text": "In the model the copies made for monitors (bus_transaction_capture) are collected in a list of their own (Tx.mon) that "
+                "nothing reads; ordinary deliveries (Tx.out) and the state are computed without it. Proved in Lean: a capture appends "
+                "exactly one copy for each capture target and touches nothing else (capture_exact), the targets are exactly the "
+                "connections holding a matching monitor rule except the addressed recipient, none twice (target_iff, targets_nodup); "
+                "every routed message - deliverable, refused or ownerless unicast, broadcast - is captured before the bus decides "
+                "anything about it (routed_message_is_captured), so is everything the bus itself sends and every NameOwnerChanged "
+                "(driver_message_is_captured, owner_changed_is_captured) and every call to the driver, with the sender the shared "
+                "message object ends up with (driver_call_is_captured); monitor rules always eavesdrop; a monitor is never a match "
+                "recipient and is dropped when a message of its reaches bus_dispatch (monitor_sending_is_dropped), the exception "
+                "being the recorded finding F18 (f18_peer_filter_answers_monitors). " + BUS_TIE +
+                "Histories with several monitors (empty and selective filters, becoming monitors while owning or queued for names and "
+                "with calls outstanding), also under a policy with denials; non-interference is additionally tested on the daemon "
+                "itself: each history is re-run with the monitor disconnected instead and every other connection must receive the same.",
+        "note": "Partial: 'what every other client observes is the same as if the monitor were absent' is structural in the model (mon is write-only) and tested differentially on the daemon, not stated as a Lean theorem; in the step in which a connection turns into a monitor its own stream is compared as a multiset (the model keeps the two lists apart).",
     },
     "C09": {
         "text": "Proved in Lean for every state and message: under a policy that lets replies out only when requested (stated as a "
